@@ -1033,6 +1033,8 @@ fn typecheck_impl_block(
             hir::Def::Fn(func) => func,
             _ => continue,
         };
+        #[cfg(goml_verif)]
+        verif_observe_method(genv, typer, diagnostics, impl_block, &f, 0);
         let mut local_env = LocalTypeEnv::new();
 
         // Combine impl generics and method generics
@@ -1103,7 +1105,11 @@ fn typecheck_impl_block(
         local_env.pop_scope(diagnostics);
         local_env.clear_tparams_env();
         local_env.clear_tparam_trait_bounds();
+        #[cfg(goml_verif)]
+        verif_observe_method(genv, typer, diagnostics, impl_block, &f, 1);
         typer.solve(genv, diagnostics);
+        #[cfg(goml_verif)]
+        verif_observe_method(genv, typer, diagnostics, impl_block, &f, 2);
     }
 }
 
@@ -1153,4 +1159,33 @@ pub fn verif_ty_from_hir(
     tparams: &[tast::TastIdent],
 ) -> tast::Ty {
     tast::Ty::from_hir(genv, ty, tparams)
+}
+
+/// Verification hook: the methods of impl blocks go to the same observer as top-level functions
+/// (`verif_set_fn_observer`), with the phase shifted by 10 (10 at entry, 11 before `solve`, 12 after);
+/// `verif_impl_generics` gives the type parameters of the impl block being checked.
+#[cfg(goml_verif)]
+thread_local! {
+    static VERIF_IMPL_GENERICS: std::cell::RefCell<Vec<String>> = const { std::cell::RefCell::new(Vec::new()) };
+}
+
+#[cfg(goml_verif)]
+pub fn verif_impl_generics() -> Vec<String> {
+    VERIF_IMPL_GENERICS.with(|g| g.borrow().clone())
+}
+
+#[cfg(goml_verif)]
+fn verif_observe_method(
+    genv: &PackageTypeEnv,
+    typer: &mut Typer,
+    diagnostics: &Diagnostics,
+    impl_block: &hir::ImplBlock,
+    f: &hir::Fn,
+    phase: u8,
+) {
+    VERIF_IMPL_GENERICS.with(|g| {
+        *g.borrow_mut() = impl_block.generics.iter().map(|x| x.to_ident_name()).collect()
+    });
+    verif_observe_fn(genv, typer, diagnostics, f, 10 + phase);
+    VERIF_IMPL_GENERICS.with(|g| g.borrow_mut().clear());
 }
